@@ -244,6 +244,11 @@ func (c *Crew) SetMachine(ctx context.Context, mid string, src *crew.SpecSource,
 				return err
 			}
 			m.State.Bs["timers"] = c.timers.copyMap()
+			// Report what the machine now has: the given
+			// timers together with those that were pending
+			// (say for a timers machine that was deleted
+			// and is created again).
+			c.change(mid).State = m.State.Copy()
 			if err := c.timers.Start(ctx); err != nil {
 				return err
 			}
